@@ -16,13 +16,32 @@ const PROP: &str = "C20";
 const ATOMS: [&str; 8] = ["a", "bb", " ", "\n", "日", "e\u{301}", "\x1b[1m", "\x1b[0m"];
 
 fn render(mode: &str, text: &str, width: usize) -> String {
-    let mut c = Command::new("prog").term_width(width).color(clap::ColorChoice::Always);
+    let mut c = Command::new("prog").term_width(width);
+    #[cfg(not(feature = "nocolor"))]
+    {
+        c = c.color(clap::ColorChoice::Always);
+    }
     c = if mode == "plain" {
         c.author(text.to_string()).help_template("<{author}>")
     } else {
         c.about(text.to_string()).help_template("<{about}>")
     };
-    c.render_help().ansi().to_string()
+    #[cfg(not(feature = "nocolor"))]
+    {
+        c.render_help().ansi().to_string()
+    }
+    // without the `color` feature the rendered text is the raw text, user escapes included
+    #[cfg(feature = "nocolor")]
+    {
+        c.render_help().to_string()
+    }
+}
+
+/// the environment variables the renderer looks at (what mcmodel::fix_env does for this check)
+fn fix_env_local() {
+    for k in ["COLUMNS", "LINES", "NO_COLOR", "CLICOLOR", "CLICOLOR_FORCE", "TERM"] {
+        std::env::remove_var(k);
+    }
 }
 
 /// Independent display width for this alphabet: wide = 2, combining mark = 0, escape sequence = 0.
@@ -39,9 +58,10 @@ fn width_of(s: &str) -> usize {
             }
             continue;
         }
+        // without the `unicode` feature every char is documented to count one column
         w += match c {
-            '日' => 2,
-            '\u{301}' => 0,
+            '日' if cfg!(not(feature = "nocolor")) => 2,
+            '\u{301}' if cfg!(not(feature = "nocolor")) => 0,
             _ => 1,
         };
     }
@@ -116,8 +136,18 @@ fn align(input: &str, output: &str, styled: bool) -> Result<u32, (String, String
         }
         n
     };
+    // the spaces the line literally starts with, before any escape sequence (what a wrapper does
+    // that sees the raw text: clap without the `color` feature)
+    let raw_indent = |from: usize| -> usize {
+        let mut k = from;
+        while k < a.len() && is_sp(&a[k]) {
+            k += 1;
+        }
+        k - from
+    };
     candidates.push(line_indent(0));
     candidates.push(visible_indent(0));
+    candidates.push(raw_indent(0));
     let mut cur_line_start = 0usize;
     let (mut i, mut j) = (0usize, 0usize);
     let mut breaks = 0u32;
@@ -128,6 +158,7 @@ fn align(input: &str, output: &str, styled: bool) -> Result<u32, (String, String
                 candidates.clear();
                 candidates.push(line_indent(i + 1));
                 candidates.push(visible_indent(i + 1));
+                candidates.push(raw_indent(i + 1));
             }
             i += 1;
             j += 1;
@@ -217,6 +248,52 @@ fn align(input: &str, output: &str, styled: bool) -> Result<u32, (String, String
     Ok(breaks)
 }
 
+/// Plain wrapper only: a break may be inserted only where the next word does not fit — the
+/// documented rule is "break when the line so far (trailing spaces included) plus the next word
+/// exceeds the width", with escape sequences counting zero columns. Returns the first break that
+/// was not necessary.
+fn unnecessary_break(text: &str, inner: &str, width: usize) -> Option<String> {
+    let src: Vec<&str> = text.split('\n').collect();
+    // source lines that end in spaces may get a break inside that trailing run, which cannot be
+    // told from the next (empty) source line: only lines without trailing spaces are judged
+    if src.iter().any(|l| l.ends_with(' ')) {
+        return None;
+    }
+    let out: Vec<&str> = inner.split('\n').collect();
+    let mut oi = 0usize;
+    for s in src {
+        let indent_len = if s.trim_matches(' ').is_empty() { 0 } else { s.len() - s.trim_start_matches(' ').len() };
+        let indent = &s[..indent_len];
+        let mut pos = 0usize;
+        let mut first = true;
+        loop {
+            let p = *out.get(oi)?;
+            let content = if first { p } else { p.strip_prefix(indent)? };
+            if !s[pos..].starts_with(content) {
+                return None; // structure not as expected: the alignment relation judges that
+            }
+            pos += content.len();
+            oi += 1;
+            first = false;
+            let rest = &s[pos..];
+            if rest.trim_matches(' ').is_empty() {
+                break; // source line exhausted (trailing spaces may have been trimmed)
+            }
+            // a break was inserted here: the run of spaces it replaced, and the word that follows
+            let run = rest.len() - rest.trim_start_matches(' ').len();
+            if run == 0 {
+                return None;
+            }
+            pos += run;
+            let next_word = s[pos..].split(' ').next().unwrap_or("");
+            if width_of(p) + run + width_of(next_word) <= width {
+                return Some(format!("line {:?} (width {}) + {} space(s) + next word {:?} (width {}) fits into {}", p, width_of(p), run, next_word, width_of(next_word), width));
+            }
+        }
+    }
+    None
+}
+
 fn check(mode: &str, text: &str, width: usize) -> Result<(u32, bool), (String, String)> {
     let out = render(mode, text, width);
     let inner = out
@@ -247,6 +324,11 @@ fn check(mode: &str, text: &str, width: usize) -> Result<(u32, bool), (String, S
             }
         }
     }
+    if !styled && width > 0 && breaks > 0 && cfg!(feature = "full") {
+        if let Some(d) = unnecessary_break(text, inner, width) {
+            return Err(("plain: a line break was inserted although the next word fits (zero-width sequences counted as columns?)".into(), format!("{} — output {:?}", d, inner)));
+        }
+    }
     if width == 0 && breaks > 0 {
         return Err((format!("{}: line break inserted at unlimited width", mode), format!("output {:?}", inner)));
     }
@@ -267,7 +349,7 @@ fn recheck(case: &Value) -> Vec<Violation> {
 fn main() {
     let cli = Cli::parse();
     install_silent_hook();
-    mcmodel::fix_env();
+    fix_env_local();
     let tier = match &cli.mode {
         Mode::Replay(p) => run_replay(PROP, p, &recheck),
         Mode::Explore(t) => *t,
@@ -277,7 +359,7 @@ fn main() {
     let widths: Vec<usize> = (0..=8).collect();
     rep.rule("every string of <= K atoms over {a, bb, space, newline, 日(width 2), e+U+0301(zero-width mark), ESC[1m, ESC[0m} x width in {0=unlimited,1..8} x {plain via {author}, styled via {about}}; rendered through Command::render_help with sentinel template and compared with the alignment relation (only whole runs of spaces become a break + the line's indent) and, for plain text, the width bound; non-trivial = cases in which at least one line break was inserted");
     rep.set("bounds", json!({"atoms": ATOMS.len(), "max_atoms": k, "widths": widths}));
-    rep.assume(if cfg!(feature = "full") { "this pass: clap built with wrap_help + unicode + color; characters outside the 8-atom alphabet, longer strings and widths > 8 are not explored" } else { "this pass: clap built with its DEFAULT features (no wrap_help, no unicode): text must come through unchanged; the width bound does not apply" });
+    rep.assume(if cfg!(feature = "nocolor") { "this pass: clap built with wrap_help and WITHOUT color/unicode (escape sequences reach the wrapper unstripped; every char counts 1 column, so the width bound is only judged for strings without wide or combining characters)" } else if cfg!(feature = "full") { "this pass: clap built with wrap_help + unicode + color; characters outside the 8-atom alphabet, longer strings and widths > 8 are not explored" } else { "this pass: clap built with its DEFAULT features (no wrap_help, no unicode): text must come through unchanged; the width bound does not apply" });
     rep.assume("styled text: the indent re-emitted after a break is the current line's leading run of spaces, either up to the first escape sequence (what the chunk-wise wrapper does) or across escape sequences (equally valid); trailing whitespace of the whole text is not content (documented trim_end)");
 
     // self-test: sentinel access works and is deterministic
